@@ -1,14 +1,62 @@
 #![no_main]
-//! C18 under AddressSanitizer: the FFI interpreter run in-process (use-after-free, double free, overflow are
-//! reported by the sanitizer; value-contract violations by the interpreter).
+//! C18 under AddressSanitizer: the FFI interpreter run in-process (use-after-free, double free, overflow are reported by
+//! the sanitizer; value-contract violations by the interpreter). The operation stream is decoded byte by byte.
 use libfuzzer_sys::fuzz_target;
-use rio_verif::fuzzsupport::{from_bytes, report};
-use rio_verif::props::c18;
+use rio_verif::fuzzsupport::{report, Bytes};
+use rio_verif::props::c18::{self, BufKind, FOp};
 
-fuzz_target!(|data: &[u8]| {
-    if let Some(case) = from_bytes(&c18::strategy(true), data) {
-        if let Err(m) = c18::run_sequence(&case) {
-            report("C18", "sequences", &case, &m);
-        }
+const ACTION: &str = r#"{"status_code_update":{"status_code":301,"on_response_status_codes":[404],"exclude_response_status_codes":false,"fallback_status_code":302,"rule_id":"r","fallback_rule_id":"q","unit_id":null,"target_hash":null},"header_filters":[{"filter":{"action":"override","header":"Location","value":"/t","id":null,"target_hash":null},"on_response_status_codes":[],"exclude_response_status_codes":false,"rule_id":"r"}],"body_filters":[{"filter":{"action":"append_child","value":"<i>x</i>","inner_value":null,"element_tree":["html","body"],"css_selector":null,"id":null,"target_hash":null},"on_response_status_codes":[],"exclude_response_status_codes":false,"rule_id":"r"},{"filter":{"action":"append_text","content":"<!--t-->","id":null,"target_hash":null},"on_response_status_codes":[],"exclude_response_status_codes":false,"rule_id":"q"}],"rule_ids":["r","q"],"rule_traces":[],"rules_applied":[],"log_override":null}"#;
+
+fn opt(b: &mut Bytes, pool: &[&str]) -> Option<String> {
+    let k = b.u8() as usize;
+    if k % (pool.len() + 1) == pool.len() { None } else { Some(pool[k % (pool.len() + 1)].to_string()) }
+}
+
+fn headers(b: &mut Bytes) -> Option<Vec<(String, String)>> {
+    let n = b.u8() % 5;
+    if n == 4 {
+        return None;
+    }
+    Some((0..n).map(|_| (b.pick(&["Content-Type", "content-encoding", "X-Shared", "Location", "X-Forwarded-For"]).to_string(), b.pick(&["text/html", "gzip", "br", "v", "", "1.2.3.4, 10.0.0.1", "é"]).to_string())).collect())
+}
+
+fn buf(b: &mut Bytes) -> BufKind {
+    match b.u8() % 4 {
+        0 => BufKind::Empty,
+        1 => BufKind::Html(*b.pick(&[1u32, 2, 97, 500, 4096, 65536])),
+        _ => BufKind::Bytes(*b.pick(&[1u32, 3, 100, 5000]), b.u8()),
+    }
+}
+
+fuzz_target!(init: { rio_verif::engine::install_panic_hook(); }, |data: &[u8]| {
+    let mut b = Bytes::new(data);
+    let mut ops = Vec::new();
+    while !b.done() && ops.len() < 40 {
+        let slot = b.u8() % 2;
+        let code = *b.pick(&[0u16, 200, 301, 404, 500]);
+        ops.push(match b.u8() % 21 {
+            0 => FOp::ReqCreate { slot, uri: opt(&mut b, &["/foo", "/foo?a=1&utm_source=x", "/é", ""]), host: opt(&mut b, &["example.com"]), scheme: opt(&mut b, &["https"]), method: opt(&mut b, &["GET", "POST"]), headers: headers(&mut b) },
+            1 => FOp::ReqFromStr { slot, url: opt(&mut b, &["http://example.com/x?y=1", "/rel", "http://a b/", ""]) },
+            2 => FOp::ReqFromJson { slot, json: opt(&mut b, &["{", r#"{"path_and_query":{"path_and_query":"/a","path_and_query_matching":"/a","skipped_query_params":null,"original":"/a"},"path_and_query_v2":"/a","host":null,"scheme":null,"method":null,"headers":[{"name":"X","value":"y"}],"remote_addr":"::1","created_at":null,"sampling_override":null}"#]) },
+            3 => FOp::ReqSetAddr { slot, addr: opt(&mut b, &["10.1.2.3", "[::1]:80", "garbage"]), trusted: b.u8() % 2 == 0 },
+            4 => FOp::ReqSerialize { slot },
+            5 => FOp::ReqDrop { slot },
+            6 | 7 => FOp::ActFromJson { slot, json: opt(&mut b, &[ACTION, ACTION, "[]"]) },
+            8 => FOp::ActSerialize { slot },
+            9 => FOp::ActStatus { slot, code },
+            10 => FOp::ActFilterHeaders { slot, headers: headers(&mut b), code, add_ids: b.u8() % 2 == 0 },
+            11 => FOp::ActShouldLog { slot, allow: b.u8() % 2 == 0, code },
+            12 => FOp::ActDrop { slot },
+            13 | 14 => FOp::BfCreate { slot, act: b.u8() % 2, code, headers: headers(&mut b) },
+            15 | 16 => FOp::BfFilter { slot, buf: buf(&mut b) },
+            17 => FOp::BfClose { slot },
+            18 => FOp::BfDrop { slot },
+            19 => FOp::BufDrop { buf: buf(&mut b) },
+            _ => FOp::Log { req: slot, act: b.u8() % 2, code, headers: headers(&mut b), proxy: opt(&mut b, &["nginx"]), ip: opt(&mut b, &["1.2.3.4", "garbage"]) },
+        });
+    }
+    let case = c18::Case { ops };
+    if let Err(m) = c18::run_sequence(&case) {
+        report("C18", "sequences", &case, &m);
     }
 });
